@@ -3,10 +3,12 @@
    a recovery file arriving or vanishing), HVerify, HRepair dbl, folded over a directory state, for PAR2
    (hrun2) and PAR1 (hrun1).  "Matches the archive" = has the length and both hashes the archive - as
    loaded at that moment - records for the path (= the original content under the local MD5 premise).
-   NOT proved here: that a successful Repair leaves Verify clean and a further Repair idle; the check
-   decides it on the closed state graph (Proofs/Par2Clean.v adds the decoder-level statement when it lands). *)
+   The convergence step (a successful Repair leaves Verify clean and a further Repair idle) is proved for
+   PAR2 under the archive's self-consistency premise - the local MD5 collision-freeness premise, stated as
+   "any content with a file's recorded hashes and length has that file's slice checksum list" - which is an
+   explicit hypothesis of the theorem; for PAR1 that step is decided by the closure exploration only. *)
 From Gopar Require Import Model.Base Model.CRC Model.GoPath Model.FS Model.Par2 Model.Par1 Model.History
-     Proofs.Par2Facts Proofs.Par1Facts Proofs.HistoryFacts.
+     Proofs.Par2Facts Proofs.Par1Facts Proofs.HistoryFacts Proofs.Par2Clean Proofs.Par2Converge.
 Open Scope N_scope.
 
 (* Verify never changes the state; a history of Verifies is the identity *)
@@ -52,3 +54,30 @@ Theorem C14_par1_history : forall md5 ix h fs q,
   exists d fs', fs_lookup (hrun1 md5 ix h fs) q = Some d /\ matches1 md5 ix fs' q d.
 Proof. exact history1_monotone. Qed.
 Print Assumptions C14_par1_history.
+
+(* CONVERGENCE STEP (PAR2): a successful Repair leaves a state in which Verify needs no repair and ANY
+   further Repair (double-check or not, successful or not) rewrites nothing *)
+Theorem C14_success_then_clean_and_idle : forall md5 ix dbl fs rp st' ds st1,
+  par2_repair md5 ix dbl (io_init fs []) = ((Ok tt, rp), st') ->
+  load_all md5 ix (io_init fs []) = (Ok ds, st1) ->
+  NoDup (map (fun info => file_path ix (di_name info)) (d_rec (ds_dec ds))) ->
+  NoDup (map di_id (d_rec (ds_dec ds))) ->
+  (forall info data, In info (d_rec (ds_dec ds)) -> recorded md5 info data ->
+       wf_bytes data /\ di_pairs info = pairs_of md5 (N.to_nat (d_slice (ds_dec ds))) data) ->
+  (forall info, In info (d_rec (ds_dec ds)) ->
+       file_path ix (di_name info) <> ix /\ vol_pattern (strip_ext ix) (file_path ix (di_name info)) = false) ->
+  exists c st2, par2_verify md5 ix (io_init (io_fs st') []) = (Ok c, st2) /\ repair_needed c = false /\
+    forall dbl2 r2 rp2 st3, par2_repair md5 ix dbl2 (io_init (io_fs st') []) = ((r2, rp2), st3) ->
+      rp2 = [] /\ io_fs st3 = io_fs st'.
+Proof. exact repair_ok_then_clean_and_idle. Qed.
+Print Assumptions C14_success_then_clean_and_idle.
+
+(* a Repair on a set that verifies clean rewrites nothing, whatever it returns *)
+Theorem C14_idle_on_clean : forall md5 ix dbl fs ds st1 r rp st',
+  load_all md5 ix (io_init fs []) = (Ok ds, st1) -> repair_needed (shard_counts ds) = false ->
+  par2_repair md5 ix dbl (io_init fs []) = ((r, rp), st') -> rp = [] /\ io_fs st' = fs.
+Proof.
+  intros md5 ix dbl fs ds st1 r rp st' HL Hc HR.
+  exact (repair_idle_when_all_ok md5 ix dbl fs ds st1 r rp st' HL (clean_counts_all_ok ds Hc) HR).
+Qed.
+Print Assumptions C14_idle_on_clean.
